@@ -48,6 +48,17 @@
 (*                                                                         *)
 (*   RetryUnavailable  the transport repeats a call the target answered    *)
 (*               with UNAVAILABLE (a retry policy in the dial options)     *)
+(*   ChopLong    the provider hands a long line to the decoder in pieces   *)
+(*               (a reader with a fixed buffer): the entry is never sent   *)
+(*                                                                         *)
+(* Size.  A step carries `size`: "small", or the class of a LONG entry --  *)
+(* "k4f" / "k4m" (a string field / a metadata value of more than 4 KiB:    *)
+(* longer than any default I/O buffer), "k64f" (a field of more than       *)
+(* 64 KiB: longer than the line scanner's default token limit, legal when  *)
+(* the provider's maxammosize is raised above it).  The statement knows no *)
+(* length: a long entry is an entry -- received exactly once, message and  *)
+(* metadata equal to what was written (the long value included: it is part *)
+(* of the value's constant prefix), one sample.                            *)
 (*                                                                         *)
 (* Answers.  A step carries `ans`: the status the TARGET answers this call *)
 (* with ("OK" or a gRPC status name).  Whatever the answer, the server     *)
@@ -79,7 +90,7 @@ EXTENDS Integers, Sequences, FiniteSets, TLC
 CONSTANTS MaxGuns,      \* gun identities 1..MaxGuns (one warm-up gun + one per instance)
           MaxShots,     \* bound on scenario shots per run (design level only)
           KeepLog,      \* keep the log of received calls (design level); the trace spec checks on the fly
-          InPlace, AbortOnBad, DropMd, SharedDialsReflect, ScenarioDeadline, DirtyAfterFail, LeakMd, KeepDefaults, LastWins, RetryUnavailable
+          InPlace, AbortOnBad, DropMd, SharedDialsReflect, ScenarioDeadline, DirtyAfterFail, LeakMd, KeepDefaults, LastWins, RetryUnavailable, ChopLong
 
 VARIABLES kind,     \* "json" | "scn"
           file,     \* sequence of entries [name, steps]
@@ -219,6 +230,7 @@ SendAct(g, rec, newShared, newCache, drawn, srv, newScratch) ==
     /\ sh[g].ph = "call"
     /\ Bad(CurStep(g)) = "none"
     /\ ~(DirtyAfterFail /\ dirty[g])                  \* (negative control) a garbage-prefixed payload is never sent
+    /\ ~(ChopLong /\ CurStep(g).size # "small")       \* (negative control) the pieces of a long line are no entry
     /\ srv = conn[g]
     /\ rcfg.T = 0 \/ clk[g] < rcfg.T                   \* the call starts with budget left
     /\ sh' = [sh EXCEPT ![g].ph = "sample"]
@@ -235,6 +247,7 @@ Sample(g, tag, ok) ==
           /\ \/ Bad(CurStep(g)) # "none"
              \/ ScenarioDeadline /\ rcfg.T > 0 /\ clk[g] >= rcfg.T      \* (negative control) deadline used up by think time
              \/ DirtyAfterFail /\ dirty[g]                             \* (negative control) leftovers of a failed render
+             \/ ChopLong /\ CurStep(g).size # "small"                  \* (negative control) a long line decoded in pieces
           \* metadata that cannot be attached fails inside InvokeRpc like an error answer: the scenario goes on with
           \* its next step; every other never-sent step ends this execution (modelled, not judged)
           /\ sh' = [sh EXCEPT ![g] = IF Bad(CurStep(g)) = "badmd" /\ sh[g].step < Len(file[sh[g].idx].steps)
